@@ -26,7 +26,7 @@ def plan(tier, seed):
 
 def thresholds(tier):
   t = {"types_built": 300, "values_checked": 5000, "layout_comparisons": 5000, "aliasing_probes": 20000,
-       "types_with_list_field": 100, "types_nested": 100, "hash_comparisons": 1000, "same_name_redeclarations": 200, "hash_after_field_update_probes": 2000, "ctor_arg_aliasing_probes": 5000, "histories_checked": 1000, "history_flips_of_pending_leaves": 2000, "ragged_array_declarations_refused": 100, "list_args_given_as_ints": 60, "ctor_container_arg_aliasing_probes": 1000, "intra_instance_aliasing_probes": 1500}
+       "types_with_list_field": 100, "types_nested": 100, "hash_comparisons": 1000, "same_name_redeclarations": 200, "hash_after_field_update_probes": 2000, "ctor_arg_aliasing_probes": 5000, "histories_checked": 1000, "history_flips_of_pending_leaves": 2000, "ragged_array_declarations_refused": 100, "list_args_given_as_ints": 60, "ctor_container_arg_aliasing_probes": 1000, "intra_instance_aliasing_probes": 1500, "falsy_struct_argument_probes": 100}
   if tier == "thorough":
     t = {k: v * 15 for k, v in t.items()}
   return t
@@ -615,12 +615,34 @@ def check_foreign_struct_arg(sh, rng, case):
                    "declared_nbits": Msg.nbits}, case=("foreign", case)); return
 
 
+def check_falsy_struct_arg(sh, rng, case):
+  """a nested struct class with __bool__ / __len__ (legal: struct classes carry methods): a FALSY argument is still the argument -
+  the constructor, clone, deepcopy and from_bits keep its fields ( F-B8 )"""
+  import copy
+  from pymtl3.datatypes import mk_bits, mk_bitstruct
+  w = rng.choice([1, 4, 8]); tag = f"{sh.idx}_{case}"
+  kind = rng.choice(["bool", "len"])
+  ns = {"__bool__": lambda self: bool(int(self.val))} if kind == "bool" else {"__len__": lambda self: int(self.val)}
+  Opt = mk_bitstruct(f"FOpt_{tag}", {"val": mk_bits(1), "data": mk_bits(w)}, namespace=ns)
+  Outer = mk_bitstruct(f"FOut_{tag}", {"x": mk_bits(4), "opt": Opt, "lst": [Opt] * 2})
+  d = rng.getrandbits(w) | 1
+  sh.count("falsy_struct_argument_probes")
+  v = Outer(0xA, Opt(0, d), [Opt(0, d), Opt(1, d)])
+  exp = (0xA << (3 * (w + 1))) | (d << (2 * (w + 1))) | (((1 << w) | d) << (w + 1)) | d
+  got = {"constructor": int(v.to_bits()), "clone": int(v.clone().to_bits()), "deepcopy": int(copy.deepcopy(v).to_bits()),
+         "from_bits": int(Outer.from_bits(mk_bits(Outer.nbits)(exp)).to_bits())}
+  wrong = {k: hex(x) for k, x in got.items() if x != exp}
+  if wrong:
+    sh.violation("falsy-struct-argument-replaced-by-the-default", {"hook": kind, "expected_packed": hex(exp), "wrong": wrong, "value": repr(v)}, case=("falsy", case))
+
+
 def run_shard(sh):
   rng = sh.rng("types")
   uid = [0]
   for case in range(sh.params["types"] // 2):
     check_array_decl(sh, sh.rng("arr", case), case)
     check_foreign_struct_arg(sh, sh.rng("foreign", case), case)
+    check_falsy_struct_arg(sh, sh.rng("falsy", case), case)
   for case in range(sh.params["types"]):
     r = sh.rng("t", case)
     if sh.only is not None and str(case) != str(sh.only).strip('"'):
